@@ -1,6 +1,10 @@
 package kasm
 
-import "github.com/sarchlab/mgpusim/v4/amd/insts"
+import (
+	"fmt"
+
+	"github.com/sarchlab/mgpusim/v4/amd/insts"
+)
 
 // IDProbeArgs is the kernel argument struct of the id-probe kernel.
 type IDProbeArgs struct {
@@ -271,4 +275,155 @@ func Empty() (*insts.KernelCodeObject, error) {
 	p := New()
 	p.SEndpgm()
 	return p.CodeObject(KernelSpec{KernargBytes: 8, SGPRs: 8, VGPRs: 4, WGIDX: true})
+}
+
+// Drawer is the decision source of the program generator.
+type Drawer interface {
+	Intn(n int, label string) int
+	Bool(num, den int, label string) bool
+}
+
+// RandArgs is the argument struct of generated programs.
+type RandArgs struct {
+	In  uint64 // 4 dwords per work-item
+	Out uint64 // 4 dwords per work-item
+	K   [4]uint32
+}
+
+// RandomProgram generates a race-free program over the supported instruction
+// subset: every work-item loads 4 input dwords (unaligned to cache lines:
+// 16-byte records at a drawn byte offset), runs a drawn mix of vector and
+// scalar ALU instructions with data-dependent divergence (v_cmp +
+// s_and_saveexec + s_cbranch_execz regions), scalar loads of 1/2/4 dwords,
+// wait counts, and stores 4 result dwords. Work-items never touch each other's
+// records. The result is whatever the emulator computes: the program is meant
+// for differential (emulation vs timing) comparison.
+func RandomProgram(d Drawer, wgSize int) (*insts.KernelCodeObject, []string, error) {
+	p := New()
+	p.SLoadDwordX4(8, 0, 0)   // s[8:9] = in, s[10:11] = out
+	p.SLoadDwordX4(20, 0, 16) // s[20:23] = K
+	p.SMulI32(S(12), S(2), p.Lit(uint32(wgSize)))
+	p.VAddU32(3, S(12), 0)      // gid
+	p.VLshlrevB32(4, Imm(4), 3) // record byte offset
+	p.SWaitcnt(15, 0)
+	p.VMovB32(6, S(9))
+	p.VAddU32(5, S(8), 4)
+	p.VAddcU32(6, Imm(0), 6) // &in[gid]
+	// the 16-byte record is read by a drawn mix of loads into v16..v19:
+	// dwords, one x2 / x4 load, or sub-dword loads (unsigned byte, signed
+	// byte, unsigned short) at drawn byte offsets inside the record
+	switch d.Intn(4, "rp.loadshape") {
+	case 0:
+		p.FlatLoad(23, 16, 5)
+	case 1:
+		p.FlatLoad(21, 16, 5)
+		p.VAddU32(5, Imm(8), 5)
+		p.VAddcU32(6, Imm(0), 6)
+		p.FlatLoad(21, 18, 5)
+	default:
+		at := 0
+		for i := 0; i < 4; i++ {
+			op := []uint32{20, 20, 16, 17, 18}[d.Intn(5, "rp.loadop")]
+			want := 4 * i
+			switch op {
+			case 16, 17:
+				want += d.Intn(4, "rp.byteoff")
+			case 18:
+				want += 2 * d.Intn(2, "rp.shortoff")
+			}
+			if want != at {
+				p.VAddU32(5, Imm(int32(want-at)), 5)
+				p.VAddcU32(6, Imm(0), 6)
+				at = want
+			}
+			p.FlatLoad(op, 16+i, 5)
+		}
+	}
+	// loads are consumed in drawn order behind matching wait counts
+	p.SWaitcnt(uint32(d.Intn(4, "rp.wait")), 15)
+	p.SWaitcnt(0, 15)
+	nOps := 6 + d.Intn(30, "rp.nops")
+	region := 0
+	open := false
+	for i := 0; i < nOps; i++ {
+		dst := 16 + d.Intn(4, "rp.dst")
+		a := 16 + d.Intn(4, "rp.a")
+		var src Src
+		switch d.Intn(4, "rp.srckind") {
+		case 0:
+			src = V(16 + d.Intn(4, "rp.b"))
+		case 1:
+			src = S(20 + d.Intn(4, "rp.k"))
+		case 2:
+			src = Imm(int32(d.Intn(64, "rp.imm")))
+		case 3:
+			src = p.Lit(uint32(d.Intn(1<<20, "rp.lit")) * 2654435761)
+		}
+		switch d.Intn(12, "rp.op") {
+		case 0:
+			p.VAddU32(dst, src, a)
+		case 1:
+			p.VSubU32(dst, src, a)
+		case 2:
+			p.VAndB32(dst, src, a)
+		case 3:
+			p.VOrB32(dst, src, a)
+		case 4:
+			p.VXorB32(dst, src, a)
+		case 5:
+			p.VLshlrevB32(dst, Imm(int32(d.Intn(31, "rp.sh"))), a)
+		case 6:
+			p.VLshrrevB32(dst, Imm(int32(d.Intn(31, "rp.sh"))), a)
+		case 7:
+			p.VMulU32U24(dst, src, a)
+		case 8:
+			p.VMovB32(dst, src)
+		case 9:
+			// scalar arithmetic feeding a vector op
+			p.SAddU32(S(24), S(20+d.Intn(4, "rp.k")), S(12))
+			p.VXorB32(dst, S(24), a)
+		case 10:
+			// open a divergent region
+			if !open {
+				p.VCmpLtU32(src, a)
+				p.SAndSaveexecB64(S(26), VCC)
+				region++
+				p.SCbranchExecz(fmt.Sprintf("join%d", region))
+				open = true
+			}
+		case 11:
+			// close the divergent region
+			if open {
+				p.Label(fmt.Sprintf("join%d", region))
+				p.SMovB64(EXEC, S(26))
+				open = false
+			}
+		}
+	}
+	if open {
+		p.Label(fmt.Sprintf("join%d", region))
+		p.SMovB64(EXEC, S(26))
+	}
+	p.VMovB32(8, S(11))
+	p.VAddU32(7, S(10), 4)
+	p.VAddcU32(8, Imm(0), 8) // &out[gid]
+	switch d.Intn(3, "rp.storeshape") {
+	case 0:
+		p.FlatStore(31, 7, 16)
+	case 1:
+		p.FlatStore(29, 7, 16)
+		p.VAddU32(7, Imm(8), 7)
+		p.VAddcU32(8, Imm(0), 8)
+		p.FlatStore(29, 7, 18)
+	default:
+		for i := 0; i < 4; i++ {
+			p.FlatStoreDword(7, 16+i)
+			p.VAddU32(7, Imm(4), 7)
+			p.VAddcU32(8, Imm(0), 8)
+		}
+	}
+	p.SWaitcnt(0, 0)
+	p.SEndpgm()
+	co, err := p.CodeObject(KernelSpec{KernargBytes: 32, SGPRs: 32, VGPRs: 24, WGIDX: true})
+	return co, p.Listing(), err
 }
